@@ -15,7 +15,9 @@ EXPLANATION = (
     'value == max and a fresh acquire(max) is granted at once. The schedule space is partitioned by what cancel() hits '
     '(blocked waiter / anything else / both) so that each leak mechanism is its own obligation; every counterexample is '
     're-run on the stock asyncio loop against the real class before it is reported. Only "Confirmed over all paths" '
-    'discharges a shard. Bounded: quick 2 tasks, capacity 2, k=4 steps plus 3 tasks, capacity 3, k=4 with normal exits and full drains; thorough adds 2 tasks k=5 and 3 tasks capacity 3 k=4.'
+    'discharges a shard. Bounded: quick 2 tasks, capacity 2, k=4 steps plus, with normal exits and full drains, 3 tasks capacity 3 k=4 and 4 tasks '
+    'capacity 3 (all four started, then one free action: two holders and two waiters of different symbolic weights); thorough adds 2 tasks k=5, '
+    '3 tasks capacity 3 k=4 (everything symbolic) and k=5, k=6 (plain), 4 tasks capacity 3 with two free actions and capacity 4 with one.'
 )
 SRC = 'hail/python/hailtop/aiotools/weighted_semaphore.py'
 HM = 'harness.C40_wsem'
@@ -77,8 +79,11 @@ def run(R):
         pct = 240
         groups = (groups_for(2, 2, 4, {'a1': [0, 1, 2], 'd0': D})
                   + groups_for(3, 3, 4, {'a1': [0, 1, 2], 'w0': [1, 2, 3]}, const=plain(3, 4), tag='p')
-                  + groups_for(4, 3, 5, {'w0': [1, 2, 3]}, const=started(4, 5), tag='s'))
-        R.bounds = {'tasks': '2 tasks capacity 2 k=4 (everything symbolic); 3 tasks capacity 3 k=4 with normal exits and full drains (weights, actions symbolic)', 'capacity': 2, 'weights': '1..capacity symbolic', 'steps': 'k=4',
+                  + groups_for(4, 3, 5, {'w0': [1, 2, 3]}, const=started(4, 5), tag='qs'))
+        R.bounds = {'tasks': '2 tasks capacity 2 k=4 (everything symbolic); 3 tasks capacity 3 k=4 with normal exits and full drains '
+                             '(weights, actions symbolic); 4 tasks capacity 3 with normal exits and full drains: the four tasks are '
+                             'started one after the other, then 1 free action (leave i / cancel i), weights symbolic',
+                    'weights': '1..capacity symbolic',
                     'drain': '0 / one loop iteration / until quiescent, symbolic per step (last step drains)'}
     else:
         pct = 1300
@@ -86,11 +91,17 @@ def run(R):
                   + groups_for(2, 2, 5, {'a1': [0, 1, 2], 'd0': D, 'd1': D, 'w0': [1, 2]})
                   + groups_for(3, 3, 4, {'a1': [0, 1, 2], 'd0': D, 'w0': [1, 2, 3]})
                   + groups_for(3, 3, 5, {'a1': [0, 1, 2], 'a2': [0, 1, 2, 3, 4], 'w0': [1, 2, 3]}, const=plain(3, 5), tag='p')
-                  + groups_for(3, 3, 6, {'a1': [0, 1, 2], 'a2': [0, 1, 2, 3, 4], 'w0': [1, 2, 3]}, modes=(0,), const=plain(3, 6), tag='p'))
-        R.bounds = {'shapes': '(2 tasks, capacity 2, k=4), (2 tasks, capacity 2, k=5), (3 tasks, capacity 3, k=4); with normal exits and full drains also (3 tasks, capacity 3, k=5) and, for cancels of blocked waiters, k=6',
+                  + groups_for(3, 3, 6, {'a1': [0, 1, 2], 'a2': [0, 1, 2, 3, 4], 'w0': [1, 2, 3]}, modes=(0,), const=plain(3, 6), tag='p')
+                  + groups_for(4, 3, 5, {'w0': [1, 2, 3]}, const=started(4, 5), tag='ts')
+                  + groups_for(4, 3, 6, {'w0': [1, 2, 3], 'a4': list(range(9))}, const=started(4, 6), tag='ts')
+                  + groups_for(4, 4, 5, {'w0': [1, 2, 3, 4]}, const=started(4, 5), tag='ts4'))
+        R.bounds = {'shapes': '(2 tasks, capacity 2, k=4), (2 tasks, capacity 2, k=5), (3 tasks, capacity 3, k=4); with normal exits and full drains also (3 tasks, capacity 3, k=5) and, for cancels of blocked waiters, k=6; 4 tasks with normal exits and full drains, '
+                              'started one after the other and followed by free actions (leave i / cancel i): capacity 3 with 1 and 2 free actions, capacity 4 with 1 free action',
                     'weights': '1..capacity symbolic',
                     'drain': '0 / one loop iteration / until quiescent, symbolic per step (last step drains)'}
     R.assume('tasks are started in index order (they differ only by symbolic weight and error flag); step 0 is a start',
+             'the 4-task families fix the first four actions to "start" (each drained to quiescence: a task that does not fit is '
+             'queued), bodies end normally and every step is drained; which tasks hold and which wait follows from the symbolic weights',
              'every task uses the semaphore through `async with sem.acquire_manager(n)` (as copier.py does)',
              'cancellation = Task.cancel() on the task running that `async with`, at any point: before it ran, while '
              'blocked in acquire, after its event was set but before it resumed, while holding',
